@@ -71,6 +71,7 @@ func verifyFunc(p *Program, fn *ssa.Function, fc *FuncContract) (u *UnitResult) 
 	u.VC = vc
 	defer catchUnit(u)
 	vc.logWrites = fc.mentions("wrote(")
+	vc.decodeBytes = fc.mentions("16(") || fc.mentions("32(") || fc.mentions("64(")
 	if fc.Trusted {
 		return u
 	}
